@@ -85,8 +85,8 @@ def data_set(tid, fields, rng, nrec=2):
 
 
 class Vflow:
-    def __init__(self, wdir, ports, binary):
-        self.wdir, self.ports, self.binary = wdir, ports, binary
+    def __init__(self, wdir, ports, binary, workers=4):
+        self.wdir, self.ports, self.binary, self.workers = wdir, ports, binary, workers
         self.proc = None
         self.errf = None
 
@@ -122,7 +122,7 @@ class Vflow:
                 "-ipfix-tpl-cache-file", os.path.join(self.wdir, "ipfix.cache"),
                 "-netflow9-tpl-cache-file", os.path.join(self.wdir, "nf9.cache"),
                 "-producer-enabled=false", "-dynamic-workers=false", "-verbose=true", "-ipfix-rpc-enabled=false",
-                "-ipfix-workers", "4", "-netflow9-workers", "4", "-netflow5-workers", "2", "-sflow-workers", "2"]
+                "-ipfix-workers", str(self.workers), "-netflow9-workers", str(self.workers), "-netflow5-workers", "2", "-sflow-workers", "2"]
         self.proc = subprocess.Popen(args, stdout=self.errf, stderr=self.errf, cwd=self.wdir)
         # ready when the four UDP sockets are bound ("… is running (UDP: listening …" is logged after ListenUDP)
         t0 = time.time()
@@ -505,6 +505,106 @@ def startup_cycles(pid, tier, seed):
             if len(r.samples) < 3:
                 r.samples.append({"case": case, "impl": line})
     r.summary = {"cycles": n, "ok": r.oracle_ok, "failed": len(r.oracle_fail), "distribution": r.stats}
+    return r
+
+
+def redefinition_cycle(n, seed, binary, workers):
+    """one exporter redefines template 500 between two definitions and sends data for the new definition right
+    behind each announcement (300 pairs, IPFIX or NetFlow v9); every published data set must show the definition
+    announced just before it (C04: 'the template most recently announced ... in any earlier message')"""
+    import re
+    rng = random.Random(seed * 104729 + n)
+    proto = ["ipfix", "nf9"][n % 2]
+    wdir = os.path.join(C.WORK, "e2e-redef-%d-%d-%d" % (os.getpid(), seed, n))
+    shutil.rmtree(wdir, ignore_errors=True)
+    os.makedirs(wdir)
+    vf = Vflow(wdir, free_ports(5), binary, workers=workers)
+    sample = {"proto": proto, "workers": workers}
+    defs = [[(8, 4), (12, 4)], [(1, 8)]]
+    try:
+        st = vf.start()
+        if st == "crash":
+            return "start-crashed", "fail:start the collector crashed while starting: " + vf.log()[-300:].replace("\n", " | "), sample
+        if not st:
+            return "not-started", "", sample
+        s = sender(2)
+        port = vf.ports[0] if proto == "ipfix" else vf.ports[3]
+        mk = ipfix_msg if proto == "ipfix" else v9_msg
+        pairs = 300
+        for i in range(pairs):
+            f = defs[i % 2]
+            s.sendto(mk([tpl_set(proto, 500, f)], 2 * i + 1), ("127.0.0.1", port))
+            s.sendto(mk([data_set(500, f, rng, 1)], 2 * i + 2), ("127.0.0.1", port))
+            if i % 25 == 24:
+                time.sleep(0.01)            # keep the socket buffer from overflowing
+        s.close()
+        time.sleep(0.5)
+        rc, lat = vf.stop(signal.SIGTERM)
+        log = vf.log()
+        seqkey = '"SequenceNo":' if proto == "ipfix" else '"SeqNum":'
+        good = bad = 0
+        first_bad = None
+        for line in log.split("\n"):
+            j = line.find('{"AgentID"')
+            if j < 0 or '"DataSets":[[' not in line:
+                continue
+            m = re.search(seqkey + r"(\d+)", line)
+            if not m:
+                continue
+            seq = int(m.group(1))
+            if seq % 2 or seq < 2:
+                continue
+            want = [e for e, _ in defs[((seq - 2) // 2) % 2]]
+            got = [int(x) for x in re.findall(r'\{"I":(\d+),', line[line.find('"DataSets"'):])]
+            if got == want:
+                good += 1
+            else:
+                bad += 1
+                first_bad = first_bad or "data message %d (sent right behind the announcement of elements %s) published with elements %s" % (seq, want, got)
+        unknown = log.count("unknown ipfix template") + log.count("unknown netflow template")
+        sample.update({"pairs": pairs, "decoded_with_announced_definition": good, "decoded_with_superseded_definition": bad, "reported_unknown": unknown})
+        if rc != 0:
+            return "exit=%s" % rc, "fail:exit status %s: %s" % (rc, log[-300:].replace("\n", " | ")), sample
+        if bad:
+            verdict_class = "fail:worker-order" if workers > 1 else "fail:template"
+            return "superseded=%d" % bad, "%s %d of %d data sets that followed a re-announcement were decoded with the superseded definition (%d workers): %s" % (
+                verdict_class, bad, good + bad, workers, first_bad), sample
+        return "superseded=0", "ok", sample
+    finally:
+        if vf.proc and vf.proc.poll() is None:
+            vf.proc.kill()
+        shutil.rmtree(wdir, ignore_errors=True)
+
+
+def redefinition_cycles(pid, tier, seed):
+    """C04 at the collector: with ONE worker per protocol every data set must be decoded with the definition announced
+    just before it; with several workers the datagrams of one exporter are decoded concurrently and a data set can
+    overtake the announcement in front of it — recorded finding K5 (`fail:worker-order`)."""
+    r = E2EResult()
+    r.name = "e2e-redefinition"
+    ok, binary, err = build_binary()
+    if not ok:
+        r.oracle_fail.append({"kind": "e2e-redefinition", "seed": seed, "session": ["build"], "verdict": "fail:build vflow binary does not build: " + err[-300:], "impl": ""})
+        r.summary = {"built": False}
+        return r
+    jobs = [(0, 1), (1, 1), (2, 4), (3, 4)] if tier == "quick" else [(i, 1 if i % 2 == 0 else [2, 4, 16, 200][(i // 2) % 4]) for i in range(24)]
+    import concurrent.futures as cf
+    with cf.ThreadPoolExecutor(max_workers=4) as ex:
+        futs = [ex.submit(redefinition_cycle, i, seed, binary, w) for i, w in jobs]
+        for (i, w), f in zip(jobs, futs):
+            line, verdict, sample = f.result()
+            r.evaluations += 1
+            case = "redefinition-cycle %d seed %d %s" % (i, seed, json.dumps(sample))
+            key = line if line.endswith("=0") or "=" not in line else line.split("=")[0] + ">0"
+            r.stats[key] = r.stats.get(key, 0) + 1
+            if verdict == "ok":
+                r.oracle_ok += 1
+                r.distinct.add(case)
+            elif verdict.startswith("fail"):
+                r.oracle_fail.append({"kind": "e2e-redefinition", "seed": seed, "session": [case], "verdict": verdict, "impl": line})
+            if len(r.samples) < 3:
+                r.samples.append({"case": case, "impl": line})
+    r.summary = {"cycles": len(jobs), "ok": r.oracle_ok, "failed": len(r.oracle_fail), "distribution": r.stats}
     return r
 
 
